@@ -301,7 +301,16 @@ func addrImmConst(t immType, i instruction, w expr.Width) expr.Const {
 	if !ok {
 		panic(fmt.Sprintf("immediate encoding %d has no value", t))
 	}
-	return expr.NewConstUint(addrAddImm(i.addr, imm), w)
+	return addrConst(addrAddImm(i.addr, imm), w)
+}
+
+// addrConst returns address a as a constant of width w. Address arithmetic
+// wraps around at the end of the address space of width w.
+func addrConst(a model.Addr, w expr.Width) expr.Const {
+	if bits := w.Bits(); bits < 64 {
+		a &= model.Addr(1)<<bits - 1
+	}
+	return expr.NewConstUint(a, w)
 }
 
 func branchCmp(
@@ -311,7 +320,7 @@ func branchCmp(
 	w expr.Width,
 ) expr.Effect {
 	jumpTarget := addrImmConst(immTypeB, i, w)
-	nextInstr := expr.NewConstUint(i.addr+instructionLen, w)
+	nextInstr := addrConst(i.addr+instructionLen, w)
 
 	condTrue, condFalse := jumpTarget, nextInstr
 	if !branchIfTrue {
